@@ -78,8 +78,14 @@ func (w *World) keep(b *store.Balance, n *store.Node) {
 }
 
 // snapshotsIntact re-reads every remembered value.
-func (w *World) snapshotsIntact() bool {
-	ok := true
+func (w *World) snapshotsIntact() (ok bool) {
+	// a snapshot whose shared digits were rewritten can even be an invalid integer
+	defer func() {
+		if recover() != nil {
+			ok = false
+		}
+	}()
+	ok = true
 	for i := range w.snaps {
 		sn := &w.snaps[i]
 		var now string
@@ -242,11 +248,11 @@ func (w *World) nodeRec(n store.Node) J {
 func (w *World) balRec(b store.Balance) J {
 	c, ok := w.money.abs(&b.Credit)
 	if !ok {
-		w.tr.flagBad("credit %s is not a multiple of the unit", b.Credit.String())
+		w.tr.flagAmt("credit %s is not a multiple of the unit", b.Credit.String())
 	}
 	d, ok := w.money.abs(&b.Deposit)
 	if !ok {
-		w.tr.flagBad("deposit %s is not a multiple of the unit", b.Deposit.String())
+		w.tr.flagAmt("deposit %s is not a multiple of the unit", b.Deposit.String())
 	}
 	return J{"account": w.names.abs(string(b.Account)), "credit": c, "deposit": d}
 }
@@ -397,11 +403,11 @@ func (w *World) storeOp(op J) (J, error) {
 func (w *World) statsRec(st *store.Stats) J {
 	c, ok := w.money.abs(&st.TotalCredit)
 	if !ok {
-		w.tr.flagBad("total credit %s is not a multiple of the unit", st.TotalCredit.String())
+		w.tr.flagAmt("total credit %s is not a multiple of the unit", st.TotalCredit.String())
 	}
 	d, ok := w.money.abs(&st.TotalDeposit)
 	if !ok {
-		w.tr.flagBad("total deposit %s is not a multiple of the unit", st.TotalDeposit.String())
+		w.tr.flagAmt("total deposit %s is not a multiple of the unit", st.TotalDeposit.String())
 	}
 	return J{
 		"active_hosts":   st.NumActiveHosts,
